@@ -155,9 +155,45 @@ class Stats(object):
                     buckets=self.buckets, errors=self.errors, notes=self.notes, counters=self.counters)
 
 
-def _safe_execute(check, case, stats):
+class CaseTimeout(BaseException):
+    ''' Raised by the per-case watchdog (BaseException: repo code catching Exception cannot swallow it). '''
+
+
+CASE_TIMEOUT_S = int(os.environ.get('VERIF_CASE_TIMEOUT', '120'))
+
+
+def _alarm(_signum, _frame):
+    raise CaseTimeout()
+
+
+def _guard_resources():
+    ''' A runaway case must not take the machine down: cap the address space of this process. '''
+    import resource
+    import signal
     try:
-        outcome = check.execute(case)
+        limit = 6 * 1024 ** 3
+        soft, hard = resource.getrlimit(resource.RLIMIT_AS)
+        if soft == resource.RLIM_INFINITY or soft > limit:
+            resource.setrlimit(resource.RLIMIT_AS, (limit, hard))
+    except (ValueError, OSError):
+        pass
+    signal.signal(signal.SIGALRM, _alarm)
+
+
+def _safe_execute(check, case, stats):
+    import signal
+    try:
+        signal.alarm(CASE_TIMEOUT_S)
+        try:
+            outcome = check.execute(case)
+        finally:
+            signal.alarm(0)
+    except (CaseTimeout, MemoryError) as err:
+        # a wall-clock or memory budget hit is inconclusive, never a verdict
+        stats.counters['cases_abandoned'] = stats.counters.get('cases_abandoned', 0) + 1
+        stats.notes.append('inconclusive: case abandoned (%s after %d s budget): %s'
+                           % (type(err).__name__, CASE_TIMEOUT_S, canon(case)[:300]))
+        return None
     except HarnessError:
         raise
     except Exception as err:   # an exception escaping execute() is a harness bug, not a verdict
@@ -200,6 +236,7 @@ def _shard_worker(args):
     try:
         check = importlib.import_module(modname)
         stats = Stats()
+        _guard_resources()
         if hasattr(check, 'prepare'):
             check.prepare()
         if enum_slice is not None and hasattr(check, 'enumerate_cases'):
@@ -409,6 +446,7 @@ def main(modname, argv):
     try:
         check = importlib.import_module(modname)
         prop = check.PROPERTY
+        _guard_resources()
         if hasattr(check, 'prepare'):
             check.prepare()
         findings = load_findings(prop)
